@@ -40,6 +40,7 @@ type gor struct {
 	abort   interface{} // panic value to re-raise in main
 	sleepTo int64
 	checkedAt int
+	settling  int // >0 inside vrt.Settle (sequence number): an older settler waits for a newer one, not the reverse
 }
 
 type timer struct {
@@ -144,6 +145,9 @@ func (i *Interp) pickNext(me *gor, blocked bool) *gor {
 				cands = append(cands, g)
 			}
 			continue
+		}
+		if i.quiescenceTest && g.settling != 0 && g.settling < me.settling {
+			continue // g waits (in its own Settle) for me to quiesce
 		}
 		cands = append(cands, g)
 	}
